@@ -14,11 +14,19 @@ Case (one line of key=value tokens):
  pos=   positional argument values joined by ',' or '-'         kw= name:value joined by ',' or '-'
         values: i<k> int, s<k> str, n None, t tuple, o an object
  out=   r:<value> | e:V | e:K | e:C | e:B     (ValueError, KeyError, custom Exception, custom BaseException)
+        values also: fv / fe a finished asyncio Future holding a value / an exception, co a coroutine object – awaitables
+        returned *as values* (job handles); e:A the function raises asyncio.CancelledError itself
         e:T | e:X | e:I   TimeoutError, concurrent.futures.CancelledError / InvalidStateError: the three classes that
                           asyncio re-creates when it copies an executor future into a loop future
  leak=  v > 0: the function enters ctx.updated(A(v)) and never leaves it      rec= k > 0: the function records M(k)
  block= 1: the function blocks its thread until a heartbeat task on the loop has made progress (asynchronous only)
  doc=   1/0: the function has a docstring
+ cancel= 1 (async functions only: wasync_a, traced_a): the function suspends on a gate and its task is cancelled there
+ recv=  (form=meth) receivers of successive calls, joined by ',', the last one is the observed call; a the instance,
+        c a copy.copy of it made at that moment, b another instance, s an instance of a subclass whose override calls super()
+
+Observation: <out>|<bind>|<seen>|<after>|<where>|<records>|<meta>|<recv>
+ recv    the object each call's body saw as `self` (a/c/b/s, ? unknown), then `;ovr=<times the subclass override ran>`; '-' for functions
 
 Observation: <out>|<bind>|<seen>|<after>|<where>|<records>|<meta>
  out     r:<value>:<1 if it is the very object the function returned> | e:<Class>:<message>:<1 same object|- not raised by the body>
@@ -48,7 +56,10 @@ RULE = ("case = decorator x call form (function / bound method / through the cla
         "positional-only, keyword-only, *args/**kwargs, none) x positional+keyword argument list (fitting or not) x outcome "
         "(value of 5 kinds / Exception / BaseException subclass) x call-site nesting (0-3 async scopes, sync scopes, "
         "ctx.updated; with/without any scope) x function behaviour (reads state, leaks a ctx.updated block, records a metric, "
-        "blocks its thread) x executor (default / explicit / explicit loop); metadata cases for all seven decorators; "
+        "blocks its thread; async: suspended and cancelled there) x executor (default / explicit / explicit loop) x, for "
+        "methods, a sequence of 1-4 calls on the instance / shallow copies of it / another instance / a subclass whose "
+        "override calls super() (receiver identity observed on every call); results include awaitables returned as "
+        "values (finished/failed Future, coroutine object), compared by identity; metadata cases for all seven decorators; "
         "non-trivial = the body ran, inside >=1 call-site block supplying state, AND (it got >=1 keyword or default-filled "
         "argument OR raised) – metadata cases: docstring present and method form; distinct = by case text")
 TRUSTED = ["contextvars.copy_context / Context.run, loop.run_in_executor, functools.partial as used in Haiway/Model/Wrap.lean",
@@ -100,14 +111,33 @@ class BaseBoom(BaseException):
 
 def parse(case: str) -> dict:
     d = dict(tok.split("=", 1) for tok in case.split())
-    for k in ("deco", "form", "root", "site", "sig", "pos", "kw", "out", "leak", "rec", "block", "doc"):
+    for k in ("deco", "form", "root", "site", "sig", "pos", "kw", "out", "leak", "rec", "block", "doc", "cancel", "recv"):
         d.setdefault(k, {"deco": "asyn", "form": "fn", "root": "1", "site": "-", "sig": "0", "pos": "-", "kw": "-",
-                         "out": "r:i1", "leak": "0", "rec": "0", "block": "0", "doc": "1"}[k])
+                         "out": "r:i1", "leak": "0", "rec": "0", "block": "0", "doc": "1", "cancel": "0", "recv": "a"}[k])
+    if d["deco"] not in ("wasync_a", "traced_a"):
+        d["cancel"] = "0"
+    if d["form"] != "meth":
+        d["recv"] = "a"
     return d
 
 
 def num(s: str) -> int:
     return int(s) if s.isdigit() else 0
+
+
+_DUMMY = None
+
+
+def dummy_loop():
+    """never run: only gives the Future values a loop to belong to"""
+    global _DUMMY
+    if _DUMMY is None:
+        _DUMMY = asyncio.new_event_loop()
+    return _DUMMY
+
+
+async def _job():
+    return "inner"
 
 
 class Values:
@@ -126,14 +156,31 @@ class Values:
             return None
         if tok == "t":
             return (1, 2)
-        o = object()
+        if tok in ("fv", "fe"):
+            o = asyncio.Future(loop=dummy_loop())
+            if tok == "fv":
+                o.set_result("inner")
+            else:
+                o.set_exception(ValueError("job failed"))
+                o.exception()  # retrieved: no "never retrieved" noise
+        elif tok == "co":
+            o = _job()
+        else:
+            o = object()
         self.keep.append(o)
         self.objs[id(o)] = tok
         return o
 
+    def dispose(self):
+        for o in self.keep:
+            if asyncio.iscoroutine(o):
+                o.close()
+
     def show(self, v) -> str:
         if id(v) in self.objs:
             return self.objs[id(v)]
+        if asyncio.isfuture(v) or asyncio.iscoroutine(v):
+            return "awaitable"
         if v is None:
             return "n"
         if isinstance(v, bool):
@@ -148,7 +195,7 @@ class Values:
             return "{" + ",".join(f"{k}:{self.show(x)}" for k, x in v.items()) + "}"
         if isinstance(v, BaseException):
             return "e:" + class_name(type(v))
-        return "self" if type(v).__name__ == "Holder" else "obj"
+        return "self" if getattr(type(v), "_is_holder", False) else "obj"
 
 
 def class_name(cls) -> str:
@@ -158,7 +205,7 @@ def class_name(cls) -> str:
 
 def make_exc(tok: str):
     return {"V": ValueError("v"), "K": KeyError("k"), "C": Custom("c", 7), "B": BaseBoom("b"),
-            "T": TimeoutError("t"), "X": concurrent.futures.CancelledError("x"),
+            "T": TimeoutError("t"), "X": concurrent.futures.CancelledError("x"), "A": asyncio.CancelledError("a"),
             "I": concurrent.futures.InvalidStateError("i")}[tok]
 
 
@@ -192,6 +239,11 @@ class Env:
         self.returned = None
         self.gate = threading.Event()
         self.beat_seen = "nobeat"
+        self.receivers: dict[int, str] = {}
+        self.recv_seen: list[str] = []
+        self.overrides = 0
+        self.suspended = False
+        self.cancel_gate = None
         out = d["out"]
         self.result_obj = self.values.make(out[2:]) if out.startswith("r:") else None
         self.exc_obj = make_exc(out[2:]) if out.startswith("e:") else None
@@ -220,7 +272,20 @@ class Env:
         return f"{st}/{label}"
 
     def body(self, names, local):
+        self.observe(names, local)
+        return self.finish()
+
+    async def abody(self, names, local):
+        self.observe(names, local)
+        if self.d["cancel"] == "1":
+            self.suspended = True
+            await self.cancel_gate   # the task is cancelled while the function is suspended here
+        return self.finish()
+
+    def observe(self, names, local):
         """what every test function does once its arguments are bound"""
+        if "self" in local:
+            self.recv_seen.append(self.receivers.get(id(local["self"]), "?"))
         show = self.values.show
         parts = []
         for n in names:
@@ -239,6 +304,8 @@ class Env:
                 pass
         if self.d["block"] == "1":
             self.beat_seen = "beat" if self.gate.wait(2.0) else "nobeat"
+
+    def finish(self):
         if self.exc_obj is not None:
             self.raised = self.exc_obj
             raise self.exc_obj
@@ -250,7 +317,8 @@ class Env:
         names = SIG_NAMES[num(self.d["sig"])]
         params = ", ".join(p for p in (("self" if method else ""), sig) if p)
         doc = f'    """doc of {name}"""\n' if self.d["doc"] == "1" else ""
-        src = f"{'async ' if is_async else ''}def {name}({params}):\n{doc}    return __env.body(__names, locals())\n"
+        call = "await __env.abody(__names, locals())" if is_async else "__env.body(__names, locals())"
+        src = f"{'async ' if is_async else ''}def {name}({params}):\n{doc}    return {call}\n"
         ns = {"__env": self, "__names": names}
         exec(src, ns)  # noqa: S102 - harness-owned source: five fixed signatures
         return ns[name]
@@ -300,11 +368,37 @@ def build(env: Env, d: dict):
         fn = env.make_function(is_async, False, "f")
         return fn, decorate(env, deco, fn), None
     fn = env.make_function(is_async, True, "m")
-    Holder = type("Holder", (), {"m": decorate(env, deco, fn)})
+    Holder = type("Holder", (), {"m": decorate(env, deco, fn), "_is_holder": True})
     obj = Holder()
+    env.holder_cls = Holder
+    env.receivers[id(obj)] = "a"
     if form == "meth":
         return fn, obj.m, obj
     return fn, Holder.m, obj
+
+
+def receiver_for(env: Env, tok: str, a):
+    """the receiver of one call of a `recv=` sequence"""
+    import copy
+
+    if tok == "a":
+        return a
+    if tok == "c":
+        o = copy.copy(a)          # made now: after whatever calls `a` has already served
+    elif tok == "b":
+        o = env.holder_cls()
+    else:
+        if getattr(env, "sub_obj", None) is None:
+            def m(self, *args, **kwargs):
+                env.overrides += 1
+                return super(Sub, self).m(*args, **kwargs)
+
+            Sub = type("Sub", (env.holder_cls,), {"m": m})
+            env.sub_obj = Sub()
+        o = env.sub_obj
+    env.values.keep.append(o)
+    env.receivers[id(o)] = tok
+    return o
 
 
 def meta_bits(orig, wrapped) -> str:
@@ -359,7 +453,7 @@ def run_real(case: str) -> str:
         if d["deco"] in DECOS_META:
             if d["form"] != "fn":
                 meta += meta_bits(orig, type(receiver).__dict__["m"])
-            return f"-|-|-|-|-|-|{meta}"
+            return f"-|-|-|-|-|-|{meta}|-"
         pos, kw = call_args(env, d, receiver, d["form"] == "cls")
         cells = {"root": "-", "own": "-"}
 
@@ -406,13 +500,32 @@ def run_real(case: str) -> str:
                     env.gate.set()
                 await asyncio.sleep(0)
 
-        async def invoke():
-            result, exc = None, None
+        async def call_once(fn_target):
+            """-> (result, exception) of one awaited call"""
             try:
-                r = target(*pos, **kw)
-                result = await r if inspect.isawaitable(r) else r
+                if d["cancel"] == "1":
+                    env.cancel_gate, env.suspended = loop.create_future(), False
+                r = fn_target(*pos, **kw)
+                if d["cancel"] == "1" and inspect.isawaitable(r):
+                    task = loop.create_task(r)
+                    for _ in range(50):
+                        if env.suspended or task.done():
+                            break
+                        await asyncio.sleep(0)
+                    task.cancel()
+                    return await task, None
+                return (await r if inspect.isawaitable(r) and d["deco"] in AWAITED else r), None
             except BaseException as e:  # noqa: BLE001
-                exc = e
+                return None, e
+
+        async def invoke():
+            fn_target = target
+            if d["form"] == "meth":
+                steps = d["recv"].split(",")
+                for tok in steps[:-1]:
+                    await call_once(receiver_for(env, tok, receiver).m)
+                fn_target = receiver_for(env, steps[-1], receiver).m
+            result, exc = await call_once(fn_target)
             state["after"] = env.fingerprint()
             state["out"] = show_outcome(env, result, exc)
 
@@ -449,10 +562,16 @@ def run_real(case: str) -> str:
         loop.run_until_complete(main())
         where = env.where + ("," + env.beat_seen if d["block"] == "1" and env.bind != "-" else "")
         records = "-" if d["root"] != "1" else f"{cells['root']} own={cells['own']}"
-        return f"{state['out']}|{env.bind}|{env.seen}|{state['after']}|{where}|{records.replace(' ', '~')}|{meta}"
+        recv = "-" if d["form"] == "fn" else f"{','.join(env.recv_seen)};ovr={env.overrides}"
+        return (f"{state['out']}|{env.bind}|{env.seen}|{state['after']}|{where}|{records.replace(' ', '~')}|{meta}|"
+                f"{recv}")
     finally:
         root_logger.removeHandler(cap)
         root_logger.setLevel(old_level)
+        try:
+            env.values.dispose()
+        except Exception:  # noqa: BLE001
+            pass
         try:
             loop._default_executor = None  # the pool is shared between cases: keep `loop.close()` from shutting it down
         except Exception:  # noqa: BLE001
@@ -470,18 +589,21 @@ def direct_reference(d: dict) -> tuple[str, str]:
     env = Env(d2, None, _Capture())
     method = d["form"] != "fn"
     fn = env.make_function(d["deco"] in IS_ASYNC, method, "m" if method else "f")
-    receiver = type("Holder", (), {})() if method else None
+    receiver = type("Holder", (), {"_is_holder": True})() if method else None
     pos, kw = call_args(env, d2, receiver, method)
 
     def call():
         result, exc = None, None
         try:
             r = fn(*pos, **kw)
-            if inspect.iscoroutine(r):
+            if inspect.iscoroutine(r) and d["deco"] in IS_ASYNC:
+                env.cancel_gate = asyncio.Future(loop=dummy_loop())
                 try:
                     r.send(None)
+                    # suspended on the gate: the cancellation is delivered there
+                    r.throw(asyncio.CancelledError())
                     r.close()
-                    raise RuntimeError("test function suspended")
+                    raise RuntimeError("test function survived its cancellation")
                 except StopIteration as stop:
                     result = stop.value
             else:
@@ -548,9 +670,9 @@ def monitor(case: str, out: str) -> list[str]:
     if out == "bad-case":
         return []
     parts = out.split("|")
-    if out.startswith("HANG") or len(parts) != 7:
+    if out.startswith("HANG") or len(parts) != 8:
         return ["wrap.no-observation:" + out[:24]]
-    o_out, o_bind, o_seen, o_after, o_where, o_rec, o_meta = parts
+    o_out, o_bind, o_seen, o_after, o_where, o_rec, o_meta, o_recv = parts
     deco = d["deco"]
     fails = []
     family = deco.split("_")[1] if deco.startswith("m_") else deco.split("_")[0]
@@ -575,6 +697,9 @@ def monitor(case: str, out: str) -> list[str]:
     if o_bind != "-" and "/" in o_seen:
         s_state, s_label = o_seen.split("/", 1)
         want_state = ("dflt" if state == "MC" else state) if is_traced else state
+        if deco.startswith("wasync") and num(d["leak"]) and d["form"] == "meth" and "," in d["recv"] and d["cancel"] != "1":
+            want_state = d["leak"]   # wrap_async runs in the caller's own context: what an earlier call of the sequence
+            #                          left there (a ctx.updated block it never closed) is the caller's state now
         if s_state != want_state:
             fails.append("wrap.context-in.state")
         if is_traced:
@@ -589,6 +714,12 @@ def monitor(case: str, out: str) -> list[str]:
             fails.append("wrap.off-thread")
         if d["block"] == "1" and not o_where.endswith(",beat"):
             fails.append("wrap.loop-blocked")
+    if d["form"] != "fn":
+        # every call of the sequence must have run on the receiver it was made on, through the subclass override if any
+        steps = d["recv"].split(",") if d["form"] == "meth" else ["a"]
+        want = (",".join(steps) if dbind != "-" else "") + f";ovr={steps.count('s')}"
+        if o_recv != want:
+            fails.append("wrap.transparent.receiver")
     if is_traced and d["root"] == "1":
         want_r = ":".join(dout.split(":")[:2])
         got = dict(p.split("=", 1) for p in o_rec.split("~") if "=" in p)
@@ -601,7 +732,7 @@ def monitor(case: str, out: str) -> list[str]:
 # generation
 
 VALS = ["i1", "i2", "i7", "s3", "n", "t", "o"]
-OUTS = ["r:i1", "r:s4", "r:n", "r:t", "r:o", "e:V", "e:K", "e:C", "e:B", "e:T", "e:X", "e:I"]
+OUTS = ["r:i1", "r:s4", "r:n", "r:t", "r:o", "r:fv", "r:fe", "r:co", "e:V", "e:K", "e:C", "e:B", "e:T", "e:X", "e:I", "e:A"]
 
 
 def gen_args(rng, sig: int, fit: bool):
@@ -671,9 +802,14 @@ def gen_case(rng, deco=None) -> str:
     leak = rng.choice([0, 0, 0, 9])
     rec = rng.choice([0, 0, 4])
     block = "1" if deco.startswith("asyn") and rng.random() < 0.12 else "0"
+    extra = ""
+    if deco in ("wasync_a", "traced_a") and rng.random() < 0.25:
+        extra += " cancel=1"
+    if form == "meth" and rng.random() < 0.5:
+        extra += " recv=" + ",".join(rng.choice("aacbs") for _ in range(rng.randint(2, 4)))
     return (f"deco={deco} form={form} root={root} site={'.'.join(site) or '-'} sig={sig} pos={','.join(pos) or '-'} "
             f"kw={','.join(f'{k}:{v}' for k, v in kw.items()) or '-'} out={out} leak={leak} rec={rec} block={block} "
-            f"doc={rng.choice('1110')}")
+            f"doc={rng.choice('1110')}{extra}")
 
 
 def generate(rng, tier):
@@ -705,13 +841,30 @@ def corpus():
         f"deco=asyn form=fn {base.replace('out=r:i2', 'out=e:I')}",
         f"deco=wasync_s form=fn {base.replace('out=r:i2', 'out=e:T')}",      # ... and only there
         f"deco=traced_s form=fn {base.replace('out=r:i2', 'out=e:X')}",
+        # awaitables returned as values are results like any other (identity)
+        f"deco=wasync_s form=fn {base.replace('out=r:i2', 'out=r:fv')}",
+        f"deco=wasync_s form=fn {base.replace('out=r:i2', 'out=r:fe')}",
+        f"deco=wasync_s form=meth {base.replace('out=r:i2', 'out=r:co')}",
+        f"deco=asyn form=fn {base.replace('out=r:i2', 'out=r:fe')}",
+        f"deco=traced_s form=fn {base.replace('out=r:i2', 'out=r:co')}",
+        f"deco=traced_a form=fn {base.replace('out=r:i2', 'out=r:fv')}",
+        # traced records the outcome also when it is a cancellation
+        f"deco=traced_a form=fn {base} cancel=1",
+        f"deco=traced_a form=meth {base.replace('out=r:i2', 'out=e:A')}",
+        f"deco=wasync_a form=fn {base} cancel=1",
+        # the receiver of every call of a sequence: instance, shallow copy of it, instance again; subclass with super()
+        f"deco=asyn form=meth {base} recv=a,c,a",
+        f"deco=asyn_ex form=meth {base} recv=a,c,c,b",
+        f"deco=asyn form=meth {base} recv=s,s,s",
+        f"deco=traced_a form=meth {base} recv=a,s,c,s",
+        f"deco=wasync_s form=meth {base} recv=c,a,s,s",
     ] + [f"deco={m} form={f} doc={dc}" for m in DECOS_META for f in ("fn", "meth") for dc in "10"]
 
 
 def nontrivial(case: str, out: str) -> bool:
     d = parse(case)
     parts = out.split("|")
-    if len(parts) != 7:
+    if len(parts) != 8:
         return False
     if d["deco"] in DECOS_META:
         return d["doc"] == "1" and d["form"] != "fn"
@@ -731,7 +884,13 @@ def classify(case: str, out: str):
     yield "site-depth:" + str(0 if d["site"] == "-" else len(d["site"].split(".")))
     yield "root:" + d["root"]
     parts = out.split("|")
-    if len(parts) == 7:
+    if "cancel" in case and d["cancel"] == "1":
+        yield "cancelled-while-suspended"
+    if d["form"] == "meth" and d["recv"] != "a":
+        yield "recv-seq:" + str(len(d["recv"].split(",")))
+        for k in set(d["recv"].split(",")):
+            yield "recv:" + k
+    if len(parts) == 8:
         yield ("outcome:" + ":".join(parts[0].split(":")[:2])) if parts[0].startswith("e:") else "outcome:value"
         yield "body:" + ("ran" if parts[1] != "-" else "not-bound")
     for k in ("leak", "rec", "block"):
@@ -752,13 +911,20 @@ def mutate(rng, case: str) -> str:
         d["out"] = rng.choice(OUTS)
     else:
         d["leak"], d["rec"] = rng.choice(["0", "9"]), rng.choice(["0", "4"])
+    if d["form"] == "meth" and rng.random() < 0.4:
+        d["recv"] = ",".join(rng.choice("acbs") for _ in range(rng.randint(1, 4)))
     return " ".join(f"{k}={v}" for k, v in d.items())
 
 
 def shrink(case: str):
     d = parse(case)
     simpler = {"site": "-", "leak": "0", "rec": "0", "block": "0", "kw": "-", "pos": "-", "out": "r:i1", "form": "fn",
-               "sig": "0", "doc": "1"}
+               "sig": "0", "doc": "1", "cancel": "0", "recv": "a"}
+    if d["recv"] != "a":
+        steps = d["recv"].split(",")
+        for i in range(len(steps)):
+            if len(steps) > 1:
+                yield " ".join(f"{kk}={','.join(steps[:i] + steps[i + 1:]) if kk == 'recv' else vv}" for kk, vv in d.items())
     for k, v in simpler.items():
         if d.get(k) != v:
             yield " ".join(f"{kk}={v if kk == k else vv}" for kk, vv in d.items())
